@@ -14,7 +14,7 @@
    Domain: enum columns are modelled without hash collisions (finding K3) and strings are below
    65536 bytes (finding K4); both are named in DESIGN.md. *)
 From stdpp Require Import gmap.
-From ColumnV Require Import Bytes Store StoreProofs.
+From ColumnV Require Import GenShape Bytes Ops Buffer Store StoreProofs Link.
 
 (* one transaction *)
 Theorem c01_commit_read : ∀ s t c col i,
@@ -47,3 +47,17 @@ Example c01_example :
   let t := push (push (push txn0 1 (mkop KPut 5 (V8 7))) 1 (mkop KMerge 5 (V8 3))) 1 (mkop KMerge 9 (V8 4)) in
   read (commit s t) 1 5 = Some (V8 10) ∧ read (commit s t) 1 9 = Some (V8 4) ∧ read (commit s t) 1 6 = None.
 Proof. vm_compute. done. Qed.
+
+(* the tie between the layers: the operations the L2 model takes for block b are what the L0
+   byte-level reader decodes from the bytes the L0 writer produced for them *)
+Theorem c01_block_ops_via_codec : ∀ ops b,
+  Forall wf_op ops → filter (λ o, in_blk b o = true) ops = range (fold_left put ops empty) b.
+Proof. exact block_ops_via_codec. Qed.
+Print Assumptions c01_block_ops_via_codec.
+
+(* regenerated from the source on every run: the ten generated numeric Apply loops are one piece of
+   code up to the type name (so one numeric column model stands for all ten), and within a block
+   the updates are applied before the row markers (the order the model follows) *)
+Theorem c01_shape : shape_numeric_apply_loops_identical = true ∧ shape_updates_before_markers = true.
+Proof. split; reflexivity. Qed.
+Print Assumptions c01_shape.
